@@ -15,6 +15,7 @@ EXPLANATION = (
     "S; x < min => 0, x >= max => 1. R15-merge-before-read: every public TDigest method that reads centroids calls inner.merge() on "
     "every path before the read, and merge returns without writing when the backlog is empty (repeated reads are identical). "
     "R15-validation: the argument asserts of quantile/cdf dominate the borrow; empty digests return NaN / 0."
+    " C19's clear rules are applied to TDigest/TDigestInner (state kept across clear() mixes old and new data)."
 )
 NOT_DECIDED = "floating-point tolerance, and the `within the digest's resolution` quantification of cdf(quantile(q)) ~ q"
 ASSUMPTIONS = ["real-number semantics for f64"]
